@@ -86,32 +86,31 @@ Definition ok_cap_global (cf : config) (q : request) (pre post : snap) : bool :=
   Nat.leb (count_affs post host (fun _ => true)) (Nat.max (spec_cap cf q) (count_affs pre host (fun _ => true))).
 
 (* ------------------------------------------------------------------ cases *)
+(* one completed operation as the implementation showed it: the datastore summary when it started, its result, the
+   datastore summary when it returned.  Operations run one after the other, except that an AutoAssign may be
+   preempted once, before its first block write, by other complete operations (of other nodes, or ReleaseAffinity). *)
+Record obs := { b_op : op; b_res : result; b_pre : snap; b_post : snap }.
+
 Record case := {
   c_cfg : config;
-  c_ops : list op;
-  c_res : list result;              (* what the implementation returned, per operation *)
-  c_snaps : list snap;              (* datastore summary after each operation *)
+  c_items : list item;              (* the schedule: operations, some preempted after k accesses by others *)
+  c_obs : list obs;                 (* what the implementation did, in the order: preempted operation, preempting ones *)
   c_final : list (key * value);     (* datastore contents at the end (sequence numbers zeroed) *)
   c_literal : bool                  (* also judge the cap read literally (all blocks affine to the host) *)
 }.
 
 Definition empty_snap : snap := {| s_blocks := []; s_affs := [] |}.
 
-Fixpoint ok_run (cf : config) (pre : snap) (ops : list op) (rs : list result) (ss : list snap) (glob : bool) : bool :=
-  match ops, rs, ss with
-  | [], [], [] => true
-  | o :: ops', r :: rs', s :: ss' =>
-      match o, r with
-      | OpAutoAssign q, RIPs ips e =>
-          (if glob then ok_cap_global cf q pre s else ok_assign cf q pre s ips e)
-      | OpAutoAssign _, _ => false
-      | _, _ => true
-      end && ok_run cf s ops' rs' ss' glob
-  | _, _, _ => false
+Definition ok_obs (cf : config) (glob : bool) (o : obs) : bool :=
+  match b_op o, b_res o with
+  | OpAutoAssign q, RIPs ips e =>
+      if glob then ok_cap_global cf q (b_pre o) (b_post o) else ok_assign cf q (b_pre o) (b_post o) ips e
+  | OpAutoAssign _, _ => false
+  | _, _ => true
   end.
 
-Definition ok_case (c : case) : bool := ok_run (c_cfg c) empty_snap (c_ops c) (c_res c) (c_snaps c) false.
-Definition ok_case_global_cap (c : case) : bool := ok_run (c_cfg c) empty_snap (c_ops c) (c_res c) (c_snaps c) true.
+Definition ok_case (c : case) : bool := forallb (ok_obs (c_cfg c) false) (c_obs c).
+Definition ok_case_global_cap (c : case) : bool := forallb (ok_obs (c_cfg c) true) (c_obs c).
 
 (* ------------------------------------------------------------------ model side of the comparison *)
 Definition norm_block (b : block) : block :=
@@ -148,29 +147,45 @@ Definition snap_eqb (a b : snap) : bool :=
   list_eqb blk3_eqb (s_blocks a) (s_blocks b) &&
   list_eqb (fun x y => N.eqb (fst x) (fst y) && N.eqb (snd x) (snd y)) (s_affs a) (s_affs b).
 
-Fixpoint run_ops_snaps (cf : config) (s : store) (ops : list op) : store * list (result * snap) :=
+Definition snap_st (s : store) : snap := snap_of (st_ents s).
+
+Fixpoint run_seq_obs (cf : config) (s : store) (ops : list op) : store * list (result * snap * snap) :=
   match ops with
   | [] => (s, [])
   | o :: t => let '(s1, r) := run s (compile cf o) in
-              let '(s2, rs) := run_ops_snaps cf s1 t in (s2, (r, snap_of (st_ents s1)) :: rs)
+              let '(s2, rs) := run_seq_obs cf s1 t in (s2, (r, snap_st s, snap_st s1) :: rs)
   end.
 
+Fixpoint run_items (cf : config) (s : store) (items : list item) : store * list (result * snap * snap) :=
+  match items with
+  | [] => (s, [])
+  | IOp o :: t =>
+      let '(s1, r) := run s (compile cf o) in
+      let '(s2, rs) := run_items cf s1 t in (s2, (r, snap_st s, snap_st s1) :: rs)
+  | IPre o k inner :: t =>
+      let '(s1, p1) := run_upto s (compile cf o) k in
+      let '(s2, io) := run_seq_obs cf s1 inner in
+      let '(s3, r) := run s2 p1 in
+      let '(s4, rs) := run_items cf s3 t in (s4, (r, snap_st s, snap_st s3) :: io ++ rs)
+  end.
+
+Definition obs_eqb (m : result * snap * snap) (o : obs) : bool :=
+  let '(r, pre, post) := m in result_eqb r (b_res o) && snap_eqb pre (b_pre o) && snap_eqb post (b_post o).
+
+(* index of the first observation that differs (for replays) *)
+Fixpoint first_diff (i : nat) (rs : list (result * snap * snap)) (os : list obs) : option nat :=
+  match rs, os with
+  | m :: t, o :: to => if obs_eqb m o then first_diff (S i) t to else Some i
+  | [], [] => None
+  | _, _ => Some i
+  end.
 Definition model_agrees (c : case) : bool :=
-  let '(s, rs) := run_ops_snaps (c_cfg c) init_store (c_ops c) in
-  list_eqb result_eqb (map fst rs) (c_res c) &&
-  list_eqb snap_eqb (map snd rs) (c_snaps c) &&
+  let '(s, rs) := run_items (c_cfg c) init_store (c_items c) in
+  match first_diff 0 rs (c_obs c) with None => true | Some _ => false end &&
   list_eqb (fun a b => key_eqb (fst a) (fst b) && value_eqb (snd a) (snd b)) (store_dump s) (c_final c).
 
-(* index of the first operation whose result or datastore summary differs (for replays) *)
-Fixpoint first_diff (i : nat) (rs : list (result * snap)) (ir : list result) (is_ : list snap) : option nat :=
-  match rs, ir, is_ with
-  | (r, s) :: t, r' :: tr, s' :: ts =>
-      if result_eqb r r' && snap_eqb s s' then first_diff (S i) t tr ts else Some i
-  | [], [], [] => None
-  | _, _, _ => Some i
-  end.
 Definition first_bad (c : case) : option nat :=
-  first_diff 0 (snd (run_ops_snaps (c_cfg c) init_store (c_ops c))) (c_res c) (c_snaps c).
+  first_diff 0 (snd (run_items (c_cfg c) init_store (c_items c))) (c_obs c).
 
 Definition check_case (c : case) : bool * bool :=
   (model_agrees c, ok_case c && (negb (c_literal c) || ok_case_global_cap c)).
